@@ -86,6 +86,50 @@ def runP (full : Bool) (o : Nat) (ops : String) : String := Id.run do
     outs := outs.push s!"{res} last={picDigest st.getLast full} ref={picDigest st.getRef full} rem={cur.bits.length}"
   return (if full then "PX " else "P ") ++ " | ".intercalate outs.toList
 
+def runPP (o : Nat) (hexs : String) : String :=
+  match unhex hexs with
+  | none => "bad-op"
+  | some b =>
+    let st := State.new (decOpts o)
+    let cur := mkCur b
+    let tooLarge : Bool :=
+      match Header.decodePicture st.opts none cur with
+      | .ok (some h, _) => (match h.format.bind SrcFmt.dims with | some (w, hh) => w * hh > 2097152 | none => false)
+      | _ => false
+    match tooLarge with
+    | true => "PP skip-large"
+    | false =>
+    match decodeNextPicture st cur with
+    | .err e => s!"PP err:{e.name}"
+    | .panic _ => "PP PANIC"
+    | .fuel => "PP FUEL"
+    | .ok (st', _) =>
+      match st'.getLast with
+      | none => "PP ok post=nolast"
+      | some p =>
+        let q := p.hdr.quantizer
+        let (w, h) := p.fmt.dims.getD (0, 0)
+        if q == 0 || q > 31 then s!"PP ok post=q{q}" else
+        let strength := Gen.QUANT_TO_STRENGTH.getD q 0
+        let post : Out (Array Nat) := do
+          let y2 ← Deblock.deblock p.luma w strength
+          let cb2 ← Deblock.deblock p.cb p.chromaSpr strength
+          let cr2 ← Deblock.deblock p.cr p.chromaSpr strength
+          Yuv.yuv420ToRgba y2 cb2 cr2 w
+        match post with
+        | .ok rgba => s!"PP ok {w}x{h} q={q} post=ok len={rgba.size} rgba={hex16 (fnv rgba)}"
+        | _ => s!"PP ok {w}x{h} q={q} post=PANIC"
+
+/-- the model's answer for a schedule line: every history run on its own, sequentially -/
+def runS (rest : String) : String :=
+  let hists := rest.splitOn "||"
+  let outs := hists.map fun h =>
+    match (h.trimAscii.toString.splitOn " ").filter (· != "") with
+    | [o, ops] => (match o.toNat? with | some o => ((runP false o ops).drop 2).toString | none => "bad-op")
+    | [o] => (match o.toNat? with | some o => ((runP false o "").drop 2).toString | none => "bad-op")
+    | _ => "bad-op"
+  "S " ++ " || ".intercalate outs
+
 def runLine (line : String) : String :=
   let toks := line.trimAscii.toString.splitOn " "
   match DriverUnits.run toks with
@@ -136,6 +180,8 @@ def runLine (line : String) : String :=
       s!"Y {hex px}"
     | _, _, _, _ => "bad-op"
   | ["H", o, ph, h] => (match o.toNat? with | some o => runH o ph h | none => "bad-op")
+  | ["PP", o, h] => (match o.toNat? with | some o => runPP o h | none => "bad-op")
+  | "S" :: _ :: rest => runS (" ".intercalate rest)
   | ["P", o, ops] => (match o.toNat? with | some o => runP false o ops | none => "bad-op")
   | ["PX", o, ops] => (match o.toNat? with | some o => runP true o ops | none => "bad-op")
   | ["P", o] => (match o.toNat? with | some o => runP false o "" | none => "bad-op")
